@@ -316,7 +316,7 @@ struct StreamSim : Sim {
                                 p.cfg[k + "inplace"] = (int64_t) g.below(2);
                                 p.cfg[k + "nt"] = g.chance(1, 4) ? 1 : 0;
                                 p.cfg[k + "taglen"] = (int64_t) (8 + 4 * g.below(3));
-                                p.cfg[k + "aadlen"] = (int64_t) (g.chance(1, 5) ? 0 : g.chance(1, 4) ? g.below(200) : g.below(40));
+                                p.cfg[k + "aadlen"] = (int64_t) gcm_aad_len_class(g.next());
                                 p.cfg[k + "share"] = (i > 0 && g.chance(1, 3)) ? 1 : 0;
                                 p.cfg[k + "keyexp"] = (int64_t) g.below(2);
                         }
